@@ -778,6 +778,14 @@ def run_data_case(spec, thresholds, schedules, directory, loaded_db=None):
             return violations, stats, distinct, {"load": out.as_dict()}
     s_thr, j_thr = thresholds
     inst, dt, classes, per_stretch, _full = read_relation(loaded_db, s_thr, j_thr)
+    if spec.get("kind") == "synthetic":
+        # degenerate stretches are a property of the SOURCE files: a tree whose load invents a
+        # one-sample stretch must not be excused by the known finding about one-sample stretches
+        stored = [c for c in classes if c in ("one_sample_stretch", "zero_sample_stretch")]
+        source = workload.spec_degenerate_classes(spec)
+        if sorted(stored) != source:
+            stats["diag_stretch_structure_differs_from_source"] += 1
+        classes = sorted((set(classes) - {"one_sample_stretch", "zero_sample_stretch"}) | set(source))
     tie_free = not refmodel.has_ties(inst, 0)
     stats["data_cases"] += 1
     stats["data_edges"] += len(inst["edges"])
@@ -1313,6 +1321,11 @@ def check(prop, tier, only=None):
         jobs.sort(key=lambda j: order[j[0]])
         for result in runner.run_jobs(_dispatch, jobs):
             report.absorb(result)
+    if report.stats["diag_stretch_structure_differs_from_source"]:
+        print("note: in %d datasets the gap-free stretches stored by load differ from those of the source files "
+              "(degenerate stretches); that is outside C01 / C02 as worded (it concerns loading), but known "
+              "findings about degenerate stretches are matched against the SOURCE structure, so a crash on "
+              "an invented stretch is reported" % report.stats["diag_stretch_structure_differs_from_source"])
     scheduler_reached = report.stats["pops"] > 0
     if report.stats["executions"] and not scheduler_reached:
         # The hook attribute exists (checked at import) but no run went through it: the tree under test
